@@ -9,13 +9,26 @@ import (
 	"time"
 
 	"verifharness/probe"
+	"verifharness/ref"
 )
 
 // probeShipped generates, builds and runs the probe program over every shipped dialect package.
+// shippedKindMismatch: shipped enums generated as the other kind than the golden list says.
+var shippedKindMismatch []string
+
 func probeShipped(seed uint64, nRandom int, withEnumChecks bool) (*probe.Output, []*scannedPkg, error) {
 	pkgs, err := scanShipped(repoDir())
 	if err != nil {
 		return nil, nil, err
+	}
+	// the kind of a shipped enum comes from the golden list, not from the shape of the generated code
+	for _, p := range pkgs {
+		for _, en := range p.Enums {
+			if !en.Alias && ref.GoldenBitmaskEnums[en.Name] != en.Bitmask {
+				shippedKindMismatch = append(shippedKindMismatch, p.Name+"."+en.Name)
+				en.Bitmask = ref.GoldenBitmaskEnums[en.Name]
+			}
+		}
 	}
 	dir, err := scratchDir("shipped")
 	if err != nil {
